@@ -140,6 +140,16 @@ theorem groestl_conforms_all_lengths_partial
     Model.digest p v msg = .ok (Spec.groestl v.bits msg) :=
   CC.Thm.C07.groestl_conforms_partial h512 h1024 p v msg hlen
 
+/-- Conformance for every length the format allows, with no hypotheses: the `Conf` records are
+    discharged in `CC.Thm.C07` (`conf512`, `conf1024`), so this is `C07.groestl_conforms` seen from the
+    counter side: no length below the format limit makes a counter wrap or a debug check fire, and the
+    digest is the specified one. -/
+theorem groestl_conforms_all_lengths
+    (p : Profile) (v : Variant) (msg : List (BitVec 8))
+    (hlen : Spec.padBlocks (Spec.blockLen v.bits) msg.length < 2 ^ 64) :
+    Model.digest p v msg = .ok (Spec.groestl v.bits msg) :=
+  CC.Thm.C07.groestl_conforms p v msg hlen
+
 /-- Where the debug profile's checks fire, from ANY state (e.g. a hook-injected counter): a checked
     `u64` addition panics in debug exactly on overflow and never in release; `finalize_dirty`
     cannot panic while `block_counter + 2 < 2^64` and does panic in debug at
